@@ -1,218 +1,256 @@
 package main
 
 // C03 — decoders are total functions of their input.
-// Direct oracle: every exported Parse of protocol/model outside the location family (the location family is
-// lib.C03Location), jt808 Decode and jt1078 Decode are run under recover() on exact-capacity copies; the same
-// bytes inside larger buffers with two different poisoned tails; on receivers that already parsed other
-// bodies; String() under recover().  Correspondence: the same requests answered by the extracted Coq model.
+//
+// Direct oracle (implementation alone): EVERY type of protocol/model with a Parse(*jt808.JTMessage) method
+// (lib.C03Types, checked against the source of the tree the harness is built from), jt808 Decode, jt1078 Decode
+// and — through lib.C03Location — the location family and the five vendor extension handlers are run under
+// recover() on exact-capacity copies; the same bytes inside larger buffers behind two different poisoned tails;
+// on receivers that already parsed 1-3 other bodies; String() under recover().  A panic, a tail-dependent
+// answer, a reused != fresh answer or a slow call is a violation with a replayable request.
+// Correspondence: the same requests answered by the extracted Coq models (Model/Total_*.v, Location*.v, Frame.v,
+// Jt1078.v) for every type inside the model.
 
 import (
 	"bytes"
 	"fmt"
-	"reflect"
+	"hash/fnv"
+	"strconv"
+	"strings"
 	"time"
 
 	. "verifh/lib"
-
-	"github.com/cuteLittleDevil/go-jt808/protocol/jt1078"
-	"github.com/cuteLittleDevil/go-jt808/protocol/jt808"
-	"github.com/cuteLittleDevil/go-jt808/shared/consts"
 )
 
 func main() { Main("C03", c03) }
 
 type runner struct {
 	c       *Ctx
-	g       *Gen
-	seen    map[string]struct{}
+	g       *C03Gen
+	seen    map[uint64]struct{}
 	slowest time.Duration
-	// sampling of correspondence cases: every case below corrAll per (type,ver,dial) bucket, then 1 in corrEvery
+	slowReq string
+	// sampling of correspondence cases: every case up to corrAll per bucket, then 1 in corrEvery
 	bucket    map[string]int
 	corrAll   int
 	corrEvery int
+	tails     [][]byte
 }
 
-func asciiOnly(b []byte) bool {
-	for _, x := range b {
-		if x >= 0x80 {
-			return false
-		}
+func (r *runner) dup(key string) bool {
+	h := fnv.New64a()
+	h.Write([]byte(key))
+	k := h.Sum64()
+	if _, ok := r.seen[k]; ok {
+		return true
 	}
-	return true
+	r.seen[k] = struct{}{}
+	return false
+}
+
+func (r *runner) sample(bucket string) bool {
+	r.bucket[bucket]++
+	n := r.bucket[bucket]
+	if strings.HasSuffix(bucket, "fill-long") { // long constant bodies: the guard answers; few are enough
+		return n <= 12 || n%(r.corrEvery*8) == 0
+	}
+	return n <= r.corrAll || n%r.corrEvery == 0
 }
 
 // check runs every C03 oracle on one body of one type.
-// prior: bodies a reused receiver parses first (may be nil -> chosen from pool).
-func (r *runner) check(t *BodyType, ver, dial int, body []byte, pool [][]byte, kind string) {
+func (r *runner) check(t *C03Type, ver, dial int, body []byte, pool [][]byte, kind string) {
 	c := r.c
-	key := fmt.Sprintf("%s %d %d %s", t.Name, ver, dial, Hx(body))
-	if _, dup := r.seen[key]; dup {
+	hk := fnv.New64a()
+	hk.Write([]byte(t.Name))
+	hk.Write([]byte{byte(ver), byte(dial)})
+	hk.Write(body)
+	hkey := hk.Sum64()
+	if _, ok := r.seen[hkey]; ok {
 		return
 	}
-	r.seen[key] = struct{}{}
-	req := "bparse " + key
+	r.seen[hkey] = struct{}{}
+	mkkey := func() string { return fmt.Sprintf("%s %d %d %s", t.Name, ver, dial, Hx(body)) }
 	t0 := time.Now()
-	h := t.New(consts.ActiveSafetyType(dial))
-	out := ParseInto(h, ver, Exact(body))
+	ans := C03Parse(t, ver, dial, body, nil)
 	el := time.Since(t0)
 	if el > r.slowest {
-		r.slowest = el
+		r.slowest, r.slowReq = el, Trunc("c03p "+mkkey(), 200)
 	}
-	ans := out
-	if out == "ok" {
-		ans = "ok " + DumpHandler(h)
-	}
+	out := firstWord(ans)
 	c.Count(kind + ":" + out)
 	c.Count("type:" + t.Name + ":" + out)
-	nontrivial := out == "ok" || len(body) > 0
+	nontrivial := out != "err" || len(body) > 0
 	if el > 2*time.Second {
-		viol(c, Violation{Signature: "C03/slow/" + t.Name, What: "Parse did not terminate promptly", Input: req,
+		viol(c, Violation{Signature: "C03/slow/" + t.Name, What: "Parse did not terminate promptly", Input: "c03p " + mkkey(),
 			Observed: el.String(), Required: "returns promptly"})
 	}
-	if out == "panic" {
-		viol(c, Violation{Signature: "C03/panic/" + t.Name, What: "Parse panicked on an exact-capacity body", Input: req,
+	switch out {
+	case "panic":
+		viol(c, Violation{Signature: "C03/panic/" + t.Name, What: "Parse panicked on an exact-capacity body (index or slice beyond len)", Input: "c03p " + mkkey(),
 			Observed: "panic", Required: "an error or a value"})
+	case "strpanic":
+		viol(c, Violation{Signature: "C03/string/" + t.Name, What: "String() panicked on a successfully parsed value", Input: "c03p " + mkkey(),
+			Observed: Trunc(ans, 400), Required: "text"})
 	}
-	// (b) spare capacity with two different poisoned tails: same outcome and same value
-	for _, fill := range []byte{0xAA, 0x55} {
-		big := make([]byte, len(body)+64)
-		copy(big, body)
-		for i := len(body); i < len(big); i++ {
-			big[i] = fill
-		}
-		h2 := t.New(consts.ActiveSafetyType(dial))
-		o2 := ParseInto(h2, ver, big[:len(body)])
-		a2 := o2
-		if o2 == "ok" {
-			a2 = "ok " + DumpHandler(h2)
-		}
-		if a2 != ans {
-			viol(c, Violation{Signature: "C03/tail/" + t.Name, What: fmt.Sprintf("result depends on memory beyond the slice (tail filled with %#x)", fill),
-				Input: req, Observed: a2, Required: "same as with exact capacity: " + Trunc(ans, 400)})
+	// (b) spare capacity behind two different poisoned tails: same outcome and same value
+	for _, tail := range r.tails {
+		if a2 := C03Parse(t, ver, dial, body, tail); a2 != ans {
+			viol(c, Violation{Signature: "C03/tail/" + t.Name, What: "the result depends on memory beyond the slice",
+				Input: "c03t " + mkkey() + " " + Hx(tail), Observed: Trunc(a2, 400), Required: "same as with exact capacity: " + Trunc(ans, 400)})
 		}
 	}
-	// (c) receiver reuse: a receiver that parsed 1..3 other bodies first must end up with the same value
+	// (c) receiver reuse: a receiver that parsed 1..3 other bodies first must give the answer of a fresh one
 	if len(pool) > 0 {
-		n := 1 + r.c.Rng.Intn(3)
-		seq := make([]VerBody, 0, n+1)
+		n := 1 + c.Rng.Intn(3)
+		seq := make([]C03VerBody, 0, n+1)
 		vers := t.Versions()
 		for i := 0; i < n; i++ {
-			seq = append(seq, VerBody{vers[r.c.Rng.Intn(len(vers))], pool[r.c.Rng.Intn(len(pool))]})
+			p := pool[c.Rng.Intn(len(pool))]
+			if c.Rng.Intn(6) == 0 && len(p) > 0 { // a prefix: a parse that fails half way
+				p = p[:c.Rng.Intn(len(p))]
+			}
+			seq = append(seq, C03VerBody{Ver: vers[c.Rng.Intn(len(vers))], Body: p})
 		}
-		seq = append(seq, VerBody{ver, body})
-		a3 := BodyParseSeq(t, dial, seq)
-		reqs := "bseq " + fmt.Sprintf("%s %d", t.Name, dial)
-		for _, s := range seq {
-			reqs += " " + s.String()
+		seq = append(seq, C03VerBody{Ver: ver, Body: body})
+		a3 := C03ParseSeq(t, dial, seq)
+		mkreq := func() string {
+			var sb strings.Builder
+			fmt.Fprintf(&sb, "c03s %s %d", t.Name, dial)
+			for _, s := range seq {
+				sb.WriteByte(' ')
+				sb.WriteString(s.String())
+			}
+			return sb.String()
 		}
 		if a3 != ans {
-			viol(c, Violation{Signature: "C03/history/" + t.Name, What: "outcome depends on what the receiver parsed before",
-				Input: reqs, Observed: Trunc(a3, 600), Required: "same as a fresh receiver: " + Trunc(ans, 600)})
+			viol(c, Violation{Signature: "C03/history/" + t.Name, What: "the outcome depends on what the receiver parsed before",
+				Input: mkreq(), Observed: Trunc(a3, 600), Required: "same as a fresh receiver: " + Trunc(ans, 600)})
 		}
-		if emitSeq := r.bucket["seq/"+t.Name]; emitSeq < r.corrAll*4 || emitSeq%r.corrEvery == 0 {
-			c.Case(reqs, a3, true)
+		if t.Model && r.sample("seq/"+t.Name+"/"+kind) {
+			c.Case(mkreq(), a3, true)
 		} else {
-			c.Eval(reqs, false)
-		}
-		r.bucket["seq/"+t.Name]++
-	}
-	// (d) rendering
-	if out == "ok" {
-		if s, p := SafeString(h); p {
-			viol(c, Violation{Signature: "C03/string/" + t.Name, What: "String() panicked on a parsed value", Input: req,
-				Observed: "panic: " + s, Required: "text"})
+			c.Evaluations++
 		}
 	}
-	// correspondence case (sampled); GBK text is only comparable when it is pure ASCII (identity) in the model
-	emit := true
-	if t.Gbk && out == "ok" && !asciiOnly(body) {
-		emit = false
-	}
-	bk := fmt.Sprintf("%s/%d/%d/%s", t.Name, ver, dial, kind)
-	r.bucket[bk]++
-	if r.bucket[bk] > r.corrAll && r.bucket[bk]%r.corrEvery != 0 {
-		emit = false
-	}
-	if emit {
-		c.Case(req, ans, nontrivial)
+	// correspondence case (sampled)
+	if t.Model && r.sample(fmt.Sprintf("%s/%d/%d/%s", t.Name, ver, dial, kind)) {
+		c.Case("c03p "+mkkey(), ans, nontrivial)
 	} else {
-		c.Eval(req, nontrivial)
+		c.Eval(strconv.FormatUint(hkey, 36), nontrivial)
 	}
 }
 
+func fill(n int, b byte) []byte { return bytes.Repeat([]byte{b}, n) }
+
 func c03(c *Ctx) {
-	c.Rule = "per exported message type x header version x dialect: every body length 0..guard+3 with 0x00 / 0xFF fill, valid bodies from the real Encode of random in-domain values, every truncation of them, every position x {boundary byte values (quick) | all 256 values (thorough)}, random mutations, each also with poisoned spare capacity and on reused receivers; frames and RTP packets likewise. A case is non-trivial when the body is non-empty or parses; distinct = distinct (type,version,dialect,bytes)"
-	r := &runner{c: c, g: &Gen{R: c.Rng, Big: !c.Quick()}, seen: map[string]struct{}{}, bucket: map[string]int{},
-		corrAll: 40, corrEvery: 23}
+	c.Rule = "per exported message type x header version x dialect: every body length 0..guard+3 (0..1100 for the first version/dialect, 0..300 otherwise) with 0x00 / 0xFF / 0x01 fill; well-formed wire bodies built by hand, every truncation of them, extensions, every value 0..255 in every byte of their count/length/id fields (+ all-ones), boundary values at the other positions, random mutations; each on an exact-capacity copy, behind two poisoned tails and on a receiver that parsed 1-3 other bodies; jt808 frames and jt1078 packets likewise; location family: see lib.C03Location. A case is non-trivial when the body is non-empty or parses; distinct = distinct (type,version,dialect,bytes)"
+	r := &runner{c: c, g: &C03Gen{R: c.Rng, Big: !c.Quick()}, seen: map[uint64]struct{}{}, bucket: map[string]int{},
+		corrAll: 150, corrEvery: 9, tails: [][]byte{fill(64, 0xA5), fill(64, 0x01)}}
 	if !c.Quick() {
-		r.corrAll, r.corrEvery = 400, 7
+		r.corrAll, r.corrEvery = 1500, 3
 	}
-	nvalid, nmut := 6, 60
-	vals := []int{0, 1, 2, 3, 4, 7, 8, 15, 16, 31, 32, 127, 128, 220, 240, 254, 255}
+	tStart := time.Now()
+	// the registry against the source
+	missing, stale, dir, err := C03RegistryCheck()
+	c.Extra["model_source_dir"] = dir
+	if err != nil || len(missing) > 0 || len(stale) > 0 {
+		viol(c, Violation{Signature: "C03/registry", What: "the registry of decoders (lib.C03Types) does not match protocol/model: every type with a Parse method must be listed",
+			Input: "c03p ? 2 0 -", Observed: fmt.Sprintf("missing=%v stale=%v err=%v", missing, stale, err), Required: "registry = source"})
+	}
+	nvalid, nmut, nfree := 4, 40, 24
+	bvals := []int{0, 1, 2, 3, 4, 5, 7, 8, 9, 15, 16, 31, 32, 36, 127, 128, 220, 240, 254, 255}
+	all := make([]int, 256)
+	for i := range all {
+		all[i] = i
+	}
 	if !c.Quick() {
-		nvalid, nmut = 40, 1500
-		vals = nil
-		for i := 0; i < 256; i++ {
-			vals = append(vals, i)
-		}
+		nvalid, nmut, nfree = 30, 1500, 400
+		bvals = all
 	}
-	for _, t := range BodyTypes {
+	first := true
+	for _, t := range C03Types {
+		first = true
 		for _, ver := range t.Versions() {
 			for _, dial := range t.Dialects() {
-				d := consts.ActiveSafetyType(dial)
-				// valid bodies
 				var pool [][]byte
-				for i := 0; i < nvalid; i++ {
-					v, ok := r.g.Value(t, ver, d)
-					if !ok {
-						break
-					}
-					b, p := SafeEncode(v)
-					if p {
-						viol(c, Violation{Signature: "C03/encode-panic/" + t.Name, What: "Encode panicked on an in-domain value",
-							Input: "benc " + fmt.Sprintf("%s %d %d %s", t.Name, ver, dial, DumpHandler(v)), Observed: "panic", Required: "bytes"})
-						continue
-					}
-					pool = append(pool, b)
+				var groups [][][]int
+				nv := nvalid
+				if !first && c.Quick() {
+					nv = 2
 				}
-				if t.Name == "T0x0104" { // one-way: build bodies by hand
-					for i := 0; i < nvalid; i++ {
-						ids := r.g.RandomParamIDs()
-						pool = append(pool, append([]byte{byte(c.Rng.Intn(256)), byte(c.Rng.Intn(256)), byte(len(ids))}, r.g.ParamsWire(ids)...))
-					}
+				for i := 0; i < nv; i++ {
+					b, pos := t.Valid(r.g, ver, dial)
+					pool = append(pool, b)
+					groups = append(groups, pos)
 				}
 				pool = append(pool, nil, []byte{0}, []byte{0xFF})
-				// (1) every length with zero / 0xFF fill
-				maxl := t.MaxLen + 3
-				if !c.Quick() && maxl < 300 {
-					maxl = 300
+				// (a)(b) every length with 0x00 / 0xFF / 0x01 fill
+				maxl := 300
+				if first {
+					maxl = 1100
+				}
+				if !t.Fixed && c.Quick() && !first {
+					maxl = t.MaxLen + 40
 				}
 				for n := 0; n <= maxl; n++ {
-					r.check(t, ver, dial, make([]byte, n), pool, "zero")
-					r.check(t, ver, dial, bytes.Repeat([]byte{0xFF}, n), pool, "ff")
-					r.check(t, ver, dial, bytes.Repeat([]byte{0x01}, n), pool, "one")
-				}
-				// (2) valid bodies, truncations, extensions, byte sweeps, mutations
-				for bi, b := range pool {
-					r.check(t, ver, dial, b, pool, "valid")
-					if len(b) > 1500 {
-						continue
+					kind := "fill"
+					if n > t.MaxLen+3 {
+						kind = "fill-long"
 					}
+					r.check(t, ver, dial, make([]byte, n), pool, kind)
+					r.check(t, ver, dial, fill(n, 0xFF), pool, kind)
+					if n <= t.MaxLen+3 || !t.Fixed {
+						r.check(t, ver, dial, fill(n, 0x01), pool, kind)
+					}
+				}
+				// (c)(d)(f) valid bodies, truncations, extensions, count sweeps, mutations
+				for bi := 0; bi < nv; bi++ {
+					b := pool[bi]
+					r.check(t, ver, dial, b, pool, "valid")
 					for n := 0; n < len(b); n++ {
-						if n > 200 && n%7 != 0 && c.Quick() {
+						if n > 160 && n%5 != 0 && c.Quick() {
 							continue
 						}
 						r.check(t, ver, dial, b[:n], pool, "trunc")
 					}
 					r.check(t, ver, dial, append(append([]byte{}, b...), 0), pool, "extend")
 					r.check(t, ver, dial, append(append([]byte{}, b...), 0xFF, 0xFF, 0xFF, 0xFF, 0xFF, 0xFF), pool, "extend")
-					if bi < 3 || !c.Quick() {
-						lim := len(b)
-						if lim > 140 {
-							lim = 140
+					// every value in every byte of the count / length / id fields
+					gs := groups[bi]
+					if c.Quick() && len(gs) > 7 {
+						gs = append(append([][]int{}, gs[:3]...), gs[len(gs)-4:]...)
+					}
+					isCnt := map[int]bool{}
+					for _, grp := range gs {
+						for _, pos := range grp {
+							isCnt[pos] = true
+							for _, v := range all {
+								m := append([]byte{}, b...)
+								m[pos] = byte(v)
+								r.check(t, ver, dial, m, pool, "count")
+							}
 						}
-						for pos := 0; pos < lim; pos++ {
-							for _, v := range vals {
+						for _, v := range []byte{0xFF, 0xFE, 0x00} {
+							m := append([]byte{}, b...)
+							for _, pos := range grp {
+								m[pos] = v
+							}
+							if v == 0xFE {
+								m[grp[len(grp)-1]] = 0xFF
+								m[grp[0]] = 0x7F
+							}
+							r.check(t, ver, dial, m, pool, "count")
+						}
+					}
+					// boundary values at other positions
+					if bi < 2 || !c.Quick() {
+						done := 0
+						for pos := 0; pos < len(b) && done < nfree; pos++ {
+							if isCnt[pos] {
+								continue
+							}
+							done++
+							for _, v := range bvals {
 								m := append([]byte{}, b...)
 								m[pos] = byte(v)
 								r.check(t, ver, dial, m, pool, "sweep")
@@ -221,8 +259,8 @@ func c03(c *Ctx) {
 					}
 					for i := 0; i < nmut && len(b) > 0; i++ {
 						m := append([]byte{}, b...)
-						for k := 0; k <= c.Rng.Intn(3); k++ {
-							switch c.Rng.Intn(4) {
+						for k := 0; k <= c.Rng.Intn(3) && len(m) > 0; k++ {
+							switch c.Rng.Intn(5) {
 							case 0:
 								m[c.Rng.Intn(len(m))] = byte(c.Rng.Intn(256))
 							case 1:
@@ -233,28 +271,41 @@ func c03(c *Ctx) {
 							case 3:
 								p := c.Rng.Intn(len(m) + 1)
 								m = append(m[:p], append([]byte{byte(c.Rng.Intn(256))}, m[p:]...)...)
-							}
-							if len(m) == 0 {
-								break
+							case 4: // splice the tail of another valid body
+								o := pool[c.Rng.Intn(nv)]
+								if len(o) > 0 {
+									m = append(m[:c.Rng.Intn(len(m)+1)], o[c.Rng.Intn(len(o)):]...)
+								}
 							}
 						}
 						r.check(t, ver, dial, m, pool, "mutate")
 					}
 				}
+				first = false
 			}
 		}
 	}
+	t1 := time.Now()
 	c03Frames(c, r)
 	c03Rtp(c, r)
+	t2 := time.Now()
 	C03Location(c)
-	c.Extra["slowest_parse"] = r.slowest.String()
-	c.Extra["types"] = len(BodyTypes)
+	c.Extra["seconds_types_codec_location"] = fmt.Sprintf("%.1f %.1f %.1f", t1.Sub(tStart).Seconds(), t2.Sub(t1).Seconds(), time.Since(t2).Seconds())
+	c.Extra["slowest_parse"] = r.slowest.String() + " " + r.slowReq
+	c.Extra["types"] = len(C03Types)
+	nm := 0
+	for _, t := range C03Types {
+		if t.Model {
+			nm++
+		}
+	}
+	c.Extra["types_in_coq_model"] = nm + 3 // + T0x0200 T0x0704 T0x0801 (Model/Location.v, ops p0200 p0704 p0801)
 	c.Exhaustive = false
 }
 
 // ---------------------------------------------------------------- jt808 frames
 
-func mkFrame(rng interface{ Intn(int) int }, ver2019, frag bool, bodyLen int, g *Gen) []byte {
+func mkFrame(rng interface{ Intn(int) int }, ver2019, frag bool, bodyLen int, g *C03Gen) []byte {
 	attr := uint16(bodyLen & 0x3FF)
 	if ver2019 {
 		attr |= 1 << 14
@@ -296,64 +347,36 @@ func mkFrame(rng interface{ Intn(int) int }, ver2019, frag bool, bodyLen int, g 
 func c03Frames(c *Ctx, r *runner) {
 	one := func(f []byte, pool [][]byte, kind string) {
 		req := "decode " + Hx(f)
-		if _, dup := r.seen[req]; dup {
+		if r.dup(req) {
 			return
 		}
-		r.seen[req] = struct{}{}
 		ans := c.Do(req, len(f) > 2)
 		c.Count("frame:" + kind + ":" + firstWord(ans))
 		if ans == "panic" {
 			viol(c, Violation{Signature: "C03/panic/jt808.Decode", What: "frame Decode panicked", Input: req, Observed: ans, Required: "an error or a message"})
 		}
-		// poisoned spare capacity
-		for _, fill := range []byte{0xAA, 0x7e} {
-			big := make([]byte, len(f)+32)
-			copy(big, f)
-			for i := len(f); i < len(big); i++ {
-				big[i] = fill
-			}
-			a2 := func() (s string) {
-				defer func() {
-					if recover() != nil {
-						s = "panic"
-					}
-				}()
-				m := jt808.NewJTMessage()
-				if err := m.Decode(big[:len(f)]); err != nil {
-					return ProtoErrCode(err)
-				}
-				return CanonMsg(m)
-			}()
-			if a2 != ans {
-				viol(c, Violation{Signature: "C03/tail/jt808.Decode", What: "frame Decode depends on memory beyond the slice", Input: req, Observed: a2, Required: ans})
+		for _, tail := range [][]byte{fill(32, 0xAA), fill(32, 0x7e), {0x7d, 0x02, 0x7e}} {
+			if a2 := C03FrameSeq([][]byte{f}, tail); a2 != ans {
+				viol(c, Violation{Signature: "C03/tail/jt808.Decode", What: "frame Decode depends on memory beyond the slice",
+					Input: "c03ft " + Hx(f) + " " + Hx(tail), Observed: Trunc(a2, 500), Required: Trunc(ans, 500)})
 			}
 		}
 		// reused JTMessage
 		if len(pool) > 0 {
 			n := 1 + c.Rng.Intn(3)
-			reqs := "decodeseq"
+			reqs := "c03fseq"
 			for i := 0; i < n; i++ {
-				reqs += " " + Hx(pool[c.Rng.Intn(len(pool))])
+				p := pool[c.Rng.Intn(len(pool))]
+				if c.Rng.Intn(5) == 0 {
+					p = p[:c.Rng.Intn(len(p))]
+				}
+				reqs += " " + Hx(p)
 			}
 			reqs += " " + Hx(f)
 			a3 := c.Do(reqs, true)
 			if a3 != ans {
 				viol(c, Violation{Signature: "C03/history/jt808.Decode", What: "frame Decode on a reused JTMessage differs from a fresh one",
 					Input: reqs, Observed: Trunc(a3, 500), Required: Trunc(ans, 500)})
-			}
-			if s := func() (s string) {
-				defer func() {
-					if recover() != nil {
-						s = "panic"
-					}
-				}()
-				m := jt808.NewJTMessage()
-				if m.Decode(Exact(f)) == nil {
-					_ = m.Header.String()
-				}
-				return ""
-			}(); s == "panic" {
-				viol(c, Violation{Signature: "C03/string/jt808.Header", What: "Header.String() panicked", Input: req, Observed: "panic", Required: "text"})
 			}
 		}
 	}
@@ -372,19 +395,15 @@ func c03Frames(c *Ctx, r *runner) {
 		}
 	}
 	for n := 0; n <= 40; n++ {
-		one(bytes.Repeat([]byte{0x7e}, n), pool, "fill7e")
-		one(bytes.Repeat([]byte{0x7d}, n), pool, "fill7d")
+		one(fill(n, 0x7e), pool, "fill7e")
+		one(fill(n, 0x7d), pool, "fill7d")
 		one(make([]byte, n), pool, "zero")
 		if n >= 2 {
-			z := make([]byte, n)
-			z[0], z[n-1] = 0x7e, 0x7e
-			one(z, pool, "zero-delimited")
-			f := bytes.Repeat([]byte{0xFF}, n)
-			f[0], f[n-1] = 0x7e, 0x7e
-			one(f, pool, "ff-delimited")
-			q := bytes.Repeat([]byte{0x7d}, n)
-			q[0], q[n-1] = 0x7e, 0x7e
-			one(q, pool, "7d-delimited")
+			for _, fb := range []byte{0x00, 0xFF, 0x7d, 0x20, 0x40, 0x60} { // 0x20/0x40/0x60: fragment / 2019 / both bits
+				z := fill(n, fb)
+				z[0], z[n-1] = 0x7e, 0x7e
+				one(z, pool, fmt.Sprintf("%02x-delimited", fb))
+			}
 		}
 	}
 	for _, f := range pool {
@@ -416,9 +435,9 @@ func c03Frames(c *Ctx, r *runner) {
 	}
 }
 
-// ---------------------------------------------------------------- jt1078 on reused receivers
+// ---------------------------------------------------------------- jt1078 packets, fresh and reused receivers
 
-func rtp(dt, sub uint8, bl int, g *Gen) []byte {
+func rtp(dt, sub uint8, bl int, g *C03Gen) []byte {
 	b := []byte{0x30, 0x31, 0x63, 0x64, 0x81, 0x62, 0, 1}
 	b = append(b, g.Bytes(6)...)
 	b = append(b, 1, dt<<4|sub)
@@ -448,7 +467,9 @@ func c03Rtp(c *Ctx, r *runner) {
 		inputs = append(inputs, append(append([]byte{}, p...), 0x30, 0x31))
 	}
 	for n := 0; n < 40; n++ {
-		inputs = append(inputs, make([]byte, n), bytes.Repeat([]byte{0xFF}, n))
+		inputs = append(inputs, make([]byte, n), fill(n, 0xFF))
+		m := append([]byte{0x30, 0x31, 0x63, 0x64}, fill(n, 0xFF)...) // marker + all-ones: largest body length
+		inputs = append(inputs, m, append([]byte{0x30, 0x31, 0x63, 0x64}, make([]byte, n)...))
 	}
 	reps := 1
 	if !c.Quick() {
@@ -456,37 +477,33 @@ func c03Rtp(c *Ctx, r *runner) {
 	}
 	for rep := 0; rep < reps; rep++ {
 		for _, in := range inputs {
-			fresh := RunOp("jt1078 " + Hx(in))
+			req := "c03rtp " + Hx(in)
+			fresh := RunOp(req)
 			if rep == 0 {
-				c.Case("jt1078 "+Hx(in), fresh, len(in) >= 16)
+				c.Case(req, fresh, len(in) >= 16)
+				c.Count("rtp:" + firstWord(fresh))
 				if fresh == "panic" {
-					viol(c, Violation{Signature: "C03/panic/jt1078.Decode", What: "jt1078 Decode panicked (fresh Packet)", Input: "jt1078 " + Hx(in), Observed: "panic", Required: "an error or a packet"})
+					viol(c, Violation{Signature: "C03/panic/jt1078.Decode", What: "jt1078 Decode or String panicked (fresh Packet)", Input: req, Observed: "panic", Required: "an error or a packet"})
 				}
-				// String() of a decoded packet
-				func() {
-					defer func() {
-						if recover() != nil {
-							viol(c, Violation{Signature: "C03/string/jt1078.Packet", What: "Packet.String() panicked", Input: "jt1078 " + Hx(in), Observed: "panic", Required: "text"})
-						}
-					}()
-					p := jt1078.NewPacket()
-					if _, err := p.Decode(Exact(in)); err == nil {
-						_ = p.String()
+				for _, tail := range [][]byte{fill(40, 0xAA), fill(40, 0x00)} {
+					if a2 := C03RtpSeq([][]byte{in}, tail); a2 != fresh {
+						viol(c, Violation{Signature: "C03/tail/jt1078.Decode", What: "jt1078 Decode depends on memory beyond the slice",
+							Input: "c03rt " + Hx(in) + " " + Hx(tail), Observed: Trunc(a2, 500), Required: Trunc(fresh, 500)})
 					}
-				}()
+				}
 			}
 			n := 1 + c.Rng.Intn(3)
-			req := "jt1078seq"
+			sreq := "c03rseq"
 			for i := 0; i < n; i++ {
-				req += " " + Hx(inputs[c.Rng.Intn(len(inputs))])
+				sreq += " " + Hx(inputs[c.Rng.Intn(len(inputs))])
 			}
-			req += " " + Hx(in)
-			ans := c.Do(req, len(in) >= 16)
+			sreq += " " + Hx(in)
+			ans := c.Do(sreq, len(in) >= 16)
 			c.Count("rtp-reuse:" + firstWord(ans))
 			if ans == "panic" {
-				viol(c, Violation{Signature: "C03/panic/jt1078.Decode", What: "jt1078 Decode panicked on a reused Packet", Input: req, Observed: "panic", Required: "an error or a packet"})
+				viol(c, Violation{Signature: "C03/panic/jt1078.Decode", What: "jt1078 Decode panicked on a reused Packet", Input: sreq, Observed: "panic", Required: "an error or a packet"})
 			} else if ans != fresh {
-				viol(c, Violation{Signature: "C03/history/jt1078.Decode", What: "jt1078 Decode on a reused Packet differs from a fresh one", Input: req, Observed: Trunc(ans, 500), Required: Trunc(fresh, 500)})
+				viol(c, Violation{Signature: "C03/history/jt1078.Decode", What: "jt1078 Decode on a reused Packet differs from a fresh one", Input: sreq, Observed: Trunc(ans, 500), Required: Trunc(fresh, 500)})
 			}
 		}
 	}
@@ -503,12 +520,8 @@ func viol(c *Ctx, v Violation) {
 }
 
 func firstWord(s string) string {
-	for i := 0; i < len(s); i++ {
-		if s[i] == ' ' {
-			return s[:i]
-		}
+	if i := strings.IndexByte(s, ' '); i >= 0 {
+		return s[:i]
 	}
 	return s
 }
-
-var _ = reflect.TypeOf
